@@ -177,7 +177,7 @@ PROPS = {
         "assumptions": ["equal created_at on one address: either version may be retained (model: first arrived)", "for ephemeral events the returned flag is not constrained by the monitor"],
     },
     "C05": {
-        "lean_modules": ["MocProps.C05", "MocProps.C05Inv"], "theorem_files": ["MocProps/C05.lean", "MocProps/C05Inv.lean"],
+        "lean_modules": ["MocProps.C05", "MocProps.C05Inv", "MocProps.C05Reg"], "theorem_files": ["MocProps/C05.lean", "MocProps/C05Inv.lean", "MocProps/C05Reg.lean"],
         "gen_groups": ["Cache"], "harness_prop": "cache", "driver_prop": "cache", "stateful": True,
         "monitors": ["deletion"],
         "n_quick": 60000, "n_thorough": 600000, "thorough_seeds": 3,
@@ -189,7 +189,7 @@ PROPS = {
                       "For EVERY history (C05Inv.lean): in every reachable state no retained event is named - by the key it is stored under or by its id - by a retained deletion request "
                       "of its own author, whichever arrived first (never_visible_with_own_deletion), and the named events cannot come back while the request is retained (deleted_stays_out); "
                       "invariant Inv2 (distinct keys, no retained event blocked by the registry, every reference of a retained request registered) is carried through Add - replace, register, "
-                      "delete referenced, evict - and through delete incl. the registry clean-up when a request leaves (add_inv2, delete_inv2, delete_keeps_registration).",
+                      "delete referenced, evict - and through delete incl. the registry clean-up when a request leaves (add_inv2, delete_inv2, delete_keeps_registration). The registry AS THE CODE KEEPS IT (a map from (key, author) to the set of ids of the retained requests, `isDeleted` = the entry exists, emptied sets removed) is modelled in MocModel/CacheReg.lean and proved to implement the set of triples the store model uses: isDeleted_refines, regAdd_refines / addKind5_refines, regDel_refines / cleanup_refines (invariant: no empty set is kept); the implementation's registry is compared with the model's triples after every insertion.",
         "level_note": "Trusted: Lean kernel + standard axioms; go2lean; harness/driver. Address references to replaceable events (kind:pubkey vs kind:pubkey:) are left open by the "
                       "statement and accepted either way by the monitor.",
         "assumptions": ["key strings of different slots differ (hex ids/pubkeys)"],
